@@ -59,6 +59,39 @@ pub(crate) fn emit(f: impl FnOnce() -> Event) {
     });
 }
 
+/// A visit of `rule::branch` to a branch token, recorded in program order: `kind` is `A`
+/// (alternation) or `R` (repetition), `span` the span of the token, `left` and `right` the spans
+/// of the tokens of the context that its branches are checked against and queued with.
+#[derive(Clone, Debug)]
+pub struct RuleVisit {
+    pub kind: char,
+    pub span: (usize, usize),
+    pub left: Option<(usize, usize)>,
+    pub right: Option<(usize, usize)>,
+}
+
+thread_local! {
+    static RULE_SINK: RefCell<Option<Vec<RuleVisit>>> = const { RefCell::new(None) };
+}
+
+/// Installs an empty sink for rule checker visits on the current thread.
+pub fn install_rule_sink() {
+    RULE_SINK.with(|sink| *sink.borrow_mut() = Some(Vec::new()));
+}
+
+/// Removes the sink for rule checker visits of the current thread and returns its visits.
+pub fn take_rule_visits() -> Vec<RuleVisit> {
+    RULE_SINK.with(|sink| sink.borrow_mut().take().unwrap_or_default())
+}
+
+pub(crate) fn emit_rule_visit(f: impl FnOnce() -> RuleVisit) {
+    RULE_SINK.with(|sink| {
+        if let Some(visits) = sink.borrow_mut().as_mut() {
+            visits.push(f());
+        }
+    });
+}
+
 impl<'t> Glob<'t> {
     /// The regular expression that `is_match` and `matched` delegate to.
     pub fn verif_pattern(&self) -> &str {
